@@ -29,14 +29,16 @@ import corr_C07 as g
 MANIFEST = {
     "text": "Kernel-checked theorems on the models of ctypedescr_new_on_top / fb_build_name / b_getcname / ffi_getctype / "
             "FFI.getctype and of the C type parser: the name position is within the name for every type (so the memcpys "
-            "stay in bounds), the Python and C implementations of getctype build the same text, and for the "
-            "primitive/pointer/array/struct/union/enum fragment typeof(getctype(T)) = T and typeof(getctype(T, x)) is "
-            "the type x denotes for x = *...*[N]...[M] over every declaration context.  On the real implementation every "
+            "stay in bounds), the Python and C implementations of getctype build the same text, and for every "
+            "well-formed type of the full language (function pointer types included) typeof(getctype(T)) = T and "
+            "typeof(getctype(T, x)) is the type x denotes, for every declarator text x built from *, [N], grouping "
+            "parentheses and function suffixes (*...)(args), over every declaration context (getctype_roundtrip, "
+            "getctype_decl, getctype_decl_py).  On the real implementation every "
             "generated ctype x declarator text is round-tripped through getctype/typeof on an in-line and an out-of-line "
             "FFI against types built directly with the backend constructors, and the emitted declarations are checked "
             "by gcc (accepted, sizeof equal to ffi.sizeof).",
-    "note": "Function pointer types are covered by the correspondence and the oracle, not by getctype_roundtrip / "
-            "getctype_decl (fragment theorems).  Trusted: gcc 12 as the judge of declarations, the harness; strlen "
+    "note": "Declarator texts that carry a variable name (`v`, `*v`, `(*v)(int)`) are covered by the correspondence and "
+            "the oracle, not by getctype_decl.  Trusted: gcc 12 as the judge of declarations, the harness; strlen "
             "results stored in int (names longer than 2^31) are not modelled.",
     "technique": "Lean 4 proof (head/tail characterisation of names, structural induction over type trees) + differential "
                  "correspondence with both getctype implementations + gcc -fsyntax-only oracle",
